@@ -212,4 +212,152 @@ theorem tick_no_attribute_error {w : World} (h : Reachable w) (hr : w.clkRunning
   | none => rw [hs] at this; cases this
   | some fn => exact ⟨fn, rfl, tick_eq_of_src hr hs⟩
 
+/-! ### 5. destinations of the clock indications -/
+
+theorem filterMap_links {w : World} (f : Trx → Dgram) (l : List Nat)
+    (h : ∀ i ∈ l, ∃ t, w.trxs[i]? = some t ∧ t.hasClock = true ∧ t.running = true) :
+    l.filterMap (fun i => (w.trxs[i]?).map f) = (runningClockOwners w l).map f ∧
+    (runningClockOwners w l).map some = l.map (fun i => w.trxs[i]?) := by
+  induction l with
+  | nil => exact ⟨rfl, rfl⟩
+  | cons i l ih =>
+    obtain ⟨t, ht, h1, h2⟩ := h i List.mem_cons_self
+    obtain ⟨ih1, ih2⟩ := ih (fun i hi => h i (List.mem_cons_of_mem _ hi))
+    unfold runningClockOwners at ih1 ih2 ⊢
+    simp only [List.filterMap_cons, ht, Option.map_some, h1, h2, Bool.and_self, if_true, List.map_cons,
+      ih1, ih2, and_self]
+
+/-- In a reachable world the indication list of the model is the list the property demands:
+one `IND CLOCK <fn>` per clock link (= running clock owner), from its clock socket to base port
++100 of its peer, every `indPeriod` frames. -/
+theorem model_inds_eq {w : World} (h : Reachable w) (fn : Nat) : modelInds w fn = clockInds w fn := by
+  obtain ⟨-, inv⟩ := reachable_inv h
+  unfold modelInds clockInds
+  split
+  · exact (filterMap_links _ _ (fun i hi => (inv.links_iff i).mp hi)).1
+  · rfl
+
+/-- the transceivers indicated to are exactly those at the clock links, one per link, in order -/
+theorem owners_of_links {w : World} (h : Reachable w) :
+    (runningClockOwners w w.clkLinks).map some = w.clkLinks.map (fun i => w.trxs[i]?) := by
+  obtain ⟨-, inv⟩ := reachable_inv h
+  exact (filterMap_links (fun t => ⟨0, 0, 0, []⟩) _ (fun i hi => (inv.links_iff i).mp hi)).2
+
+/-- At a tick of frame `fn` the datagrams emitted are the clock indications demanded by the
+property (`clockInds`: to the links of the running clock owners, none off-period), followed only
+by datagrams of DATA sockets. -/
+theorem ind_destinations {w : World} (h : Reachable w) {fn : Nat} (hr : w.clkRunning = true)
+    (hs : w.clkSrc = some fn) :
+    ∃ rest, (tick w).out = clockInds w fn ++ rest ∧ ∀ d ∈ rest, IsDataDgram w d := by
+  rw [tick_eq_of_src hr hs, ← model_inds_eq h]
+  obtain ⟨w1, extra, -, ho, hd, -⟩ := tick_go_post fn (List.range w.trxs.length) w (modelInds w fn) 0
+  exact ⟨extra, ho, hd⟩
+
+theorem ind_on_period (w : World) {fn : Nat} (hp : fn % Gen.World.indPeriod = 0) :
+    clockInds w fn = (runningClockOwners w w.clkLinks).map
+      (fun t => ⟨t.clckPort, t.addr, t.clckRemote, encodeUtf8 (lit "IND CLOCK " ++ natDigits fn ++ [0])⟩) := by
+  unfold clockInds
+  rw [if_pos hp]; rfl
+
+theorem ind_off_period (w : World) {fn : Nat} (hp : fn % Gen.World.indPeriod ≠ 0) :
+    clockInds w fn = [] := by
+  unfold clockInds
+  rw [if_neg hp]
+
+/-- the indication period of the protocol description (every 102 frames) -/
+theorem ind_period_value : Gen.World.indPeriod = 102 := by decide
+
+/-- While the generator does not run a tick emits nothing and changes nothing. -/
+theorem tick_idle {w : World} (hr : w.clkRunning = false) : tick w = { world := w } :=
+  tick_not_running hr
+
+/-! ### 6. POWEROFF forgets -/
+
+theorem poweroff_forgets {w : World} {op : Op} {j : Nat} (h : powerCmd op = some (j, false)) {k : Nat}
+    (ha : affects w j k = true) (t' : Trx) (ht' : (step w op).world.trxs[k]? = some t') :
+    t'.fh = none ∧ t'.txQueue = [] ∧ t'.running = false := by
+  rcases step_world_cases w op with ⟨hp, -⟩ | ⟨j', on, hp, hw, hs⟩ | ⟨j', t, hp, -⟩ |
+      ⟨j', t, hp, -⟩ | ⟨j', t, hp, hw, hs⟩
+  · rw [hp] at h; cases h
+  · rw [hp] at h; cases h
+    have : k = j := by simpa [affects, hw] using ha
+    subst this
+    rw [hs, hw] at ht'; cases ht'
+  · rw [hp] at h; cases h
+  · rw [hp] at h; cases h
+  · rw [hp] at h; cases h
+    rw [hs, powerWorld_getElem? hw, if_pos ha] at ht'
+    cases hk : w.trxs[k]? with
+    | none => rw [hk] at ht'; cases ht'
+    | some t0 =>
+      rw [hk] at ht'
+      simp only [Option.map_some, Option.some.injEq] at ht'
+      subst ht'
+      exact powerSet_off t0
+
+/-- ... and the affected transceivers exist -/
+theorem poweroff_affected_exist {w : World} (wf : WF w) {j : Nat} {t : Trx} (hw : w.trxs[j]? = some t)
+    (op : Op) {k : Nat} (ha : affects w j k = true) : ∃ t', (step w op).world.trxs[k]? = some t' := by
+  have hk : k < w.trxs.length := by
+    by_cases hkj : k = j
+    · subst hkj; exact lt_of_getElem? hw
+    · obtain ⟨tc, htc, -⟩ := affects_child wf hw ha hkj
+      exact lt_of_getElem? htc
+  rw [← step_length w op] at hk
+  exact ⟨_, List.getElem?_eq_getElem hk⟩
+
+/-! ### 7. port plan -/
+
+/-- port plan of any transceiver record (the protocol's numbers, literally) -/
+theorem port_plan_trx (t : Trx) :
+    t.clckPort = t.basePort ∧ t.ctrlPort = t.basePort + 1 + 2 * t.childIdx ∧
+    t.dataPort = t.basePort + 2 + 2 * t.childIdx ∧
+    t.clckRemote = t.basePort + 100 ∧ t.ctrlRemote = t.basePort + 101 + 2 * t.childIdx ∧
+    t.dataRemote = t.basePort + 102 + 2 * t.childIdx := by
+  refine ⟨?_, ?_, ?_, ?_, ?_, ?_⟩ <;>
+    simp only [Trx.clckPort, Trx.ctrlPort, Trx.dataPort, Trx.clckRemote, Trx.ctrlRemote, Trx.dataRemote] <;>
+    omega
+
+/-- local ports of two different transceivers on the same remote address / base port are distinct -/
+theorem ports_distinct_wf {w : World} (wf : WF w) {i j : Nat} {ti tj : Trx} (hi : w.trxs[i]? = some ti)
+    (hj : w.trxs[j]? = some tj) (hij : i ≠ j) (ha : ti.addr = tj.addr) (hb : ti.basePort = tj.basePort) :
+    ti.ctrlPort ≠ tj.ctrlPort ∧ ti.dataPort ≠ tj.dataPort ∧ ti.ctrlPort ≠ tj.dataPort ∧
+    ti.dataPort ≠ tj.ctrlPort ∧ ti.ctrlPort ≠ tj.clckPort ∧ ti.dataPort ≠ tj.clckPort ∧
+    ¬ (ti.hasClock = true ∧ tj.hasClock = true) := by
+  have hc : ti.childIdx ≠ tj.childIdx := fun hc =>
+    hij (wf.distinct i (lt_of_getElem? hi) j (lt_of_getElem? hj) ti hi tj hj ha hb hc)
+  have c1 := wf.clock_iff i (lt_of_getElem? hi) ti hi
+  have c2 := wf.clock_iff j (lt_of_getElem? hj) tj hj
+  simp only [Trx.clckPort, Trx.ctrlPort, Trx.dataPort]
+  refine ⟨by omega, by omega, by omega, by omega, by omega, by omega, ?_⟩
+  rintro ⟨h1, h2⟩
+  exact hc ((c1.mp h1).trans (c2.mp h2).symm)
+
+theorem port_plan {seed : Nat} {extra : List (Nat × Nat × Nat)} {w : World}
+    (h : build seed extra = .ok w) :
+    (∀ t ∈ w.trxs, t.clckPort = t.basePort ∧ t.ctrlPort = t.basePort + 1 + 2 * t.childIdx ∧
+      t.dataPort = t.basePort + 2 + 2 * t.childIdx ∧
+      t.clckRemote = t.clckPort + 100 ∧ t.ctrlRemote = t.ctrlPort + 100 ∧
+      t.dataRemote = t.dataPort + 100 ∧
+      t.clckPort ≠ t.ctrlPort ∧ t.clckPort ≠ t.dataPort ∧ t.ctrlPort ≠ t.dataPort) ∧
+    (∃ bts ∈ w.trxs[0]?, bts.basePort = 5700 ∧ bts.childIdx = 0 ∧ bts.hasClock = true ∧
+      bts.childMgt = Gen.World.btsChildMgt) ∧
+    (∃ ms ∈ w.trxs[1]?, ms.basePort = 6700 ∧ ms.childIdx = 0 ∧ ms.hasClock = true ∧
+      ms.childMgt = Gen.World.msChildMgt) ∧
+    (∀ (i j : Nat) (ti tj : Trx), w.trxs[i]? = some ti → w.trxs[j]? = some tj → i ≠ j →
+      ti.addr = tj.addr → ti.basePort = tj.basePort →
+      ti.ctrlPort ≠ tj.ctrlPort ∧ ti.dataPort ≠ tj.dataPort ∧ ti.ctrlPort ≠ tj.dataPort ∧
+      ti.dataPort ≠ tj.ctrlPort ∧ ti.ctrlPort ≠ tj.clckPort ∧ ti.dataPort ≠ tj.clckPort ∧
+      ¬ (ti.hasClock = true ∧ tj.hasClock = true)) := by
+  obtain ⟨wf, -⟩ := wiring_wf h
+  refine ⟨?_, ?_, ?_, fun i j ti tj hi hj => ports_distinct_wf wf hi hj⟩
+  · intro t _
+    refine ⟨?_, ?_, ?_, ?_, ?_, ?_, ?_, ?_, ?_⟩ <;>
+      simp only [Trx.clckPort, Trx.ctrlPort, Trx.dataPort, Trx.clckRemote, Trx.ctrlRemote, Trx.dataRemote] <;>
+      omega
+  · obtain ⟨t, ht, -, h2, h3, h4, h5⟩ := wf.bts
+    exact ⟨t, ht, h2, h3, h5, h4⟩
+  · obtain ⟨t, ht, -, h2, h3, h4, h5⟩ := wf.ms
+    exact ⟨t, ht, h2, h3, h5, h4⟩
+
 end OsmoVerif.Props.C12
